@@ -15,6 +15,63 @@ import vlib, xlib
 PID = "C07"
 
 
+def theorems(chk, tier, d):
+    """spec/XFoldMC: the compile-time arithmetic and the rewritings of XFold agree with XLang (machine mode) - TLC, one state per case"""
+    jobs = []; outs = []
+    def job(which, sl, nsl, stride, dev=""):
+        o = os.path.join(d, "xfold_%s_%d%s.json" % (which, sl, dev)); outs.append((which, dev, o))
+        jobs.append(dict(module="XFoldMC", cfg="XFoldMC.cfg", workers=1, heap="2g", timeout=3000,
+                         env={"WHICH": which, "SLICE": str(sl), "NSL": str(nsl), "STRIDE": str(stride), "DEV": dev, "OUT": o}))
+    for sl in range(8):
+        job("fold", sl, 8, 1)
+    job("fold", 0, 8, 1, "pinned")
+    stride = 16 if tier == "quick" else 1
+    for sl in range(16):
+        job("opt", sl, 16, stride)
+    res = vlib.tlc_parallel(jobs, nproc=vlib.NCPU)
+    tot = collections.Counter(); states = 0
+    for (which, dev, o), r in zip(outs, res):
+        rep = vlib.read_ndjson(o)[0]
+        if dev == "pinned":
+            # the named deviation PinnedFold (relations folded on host integers) must be found unsound - by the invariant as well
+            if rep['unsound'] == 0 or not r.violation:
+                raise vlib.MachineryError("XFoldMC accepts the PinnedFold deviation: the theorem is not live")
+            chk.set("pinned_fold_deviation_refuted_by_TLC", rep['example'])
+            continue
+        states += r.distinct or 0
+        tot[which + "_cases"] += rep['cases']; tot[which + "_defined"] += rep['defined']
+        if rep['unsound'] or r.violation:
+            chk.violation("spec-XFold:%s" % which, "TLC: XFold's %s is not sound against XLang (machine mode), e.g. %s" % ("constant folding" if which == "fold" else "expression rewriting", rep['example']))
+    chk.add("states", states); chk.add("transitions", states)
+    chk.set("XFoldMC", dict(tot))
+    chk.vacuity(tot["fold_defined"] < 1000 or tot["opt_defined"] < (5000 if tier == "quick" else 100000), "XFoldMC: too few cases inside XLang's domain: %s" % dict(tot))
+
+
+def frontend(chk, tier, d, cases):
+    """spec/XTreeV on the fold corpus: the [const=v] annotation of every operator node and the rewritten tree, as the compiler prints them"""
+    import xtree
+    plain = vlib.build_cxx("x_case", ["x_case.cpp"])
+    step = 6 if tier == "quick" else 1
+    tsrc = [(c['id'], c['src']) for c in cases[::step]] + [('static%d' % i, s) for i, s in enumerate(xtree.static_sources())]
+    trecs = xtree.run(d, plain, tsrc, tag="c07t")
+    tcan = json.loads(json.dumps(next(r for r in trecs if r['status'] == 'ok' and r['cmp'] and r['tree']['c']))); tcan['id'] = 'canary'
+    def bump(n):           # change the first folded value found
+        if n.get('hc'):
+            n['cv'] = n['cv'] ^ 1; return True
+        return any(bump(c) for c in n['c'])
+    if not bump(tcan['tree']):
+        tcan['tree']['c'] = tcan['tree']['c'][:-1]
+    tverd = xlib.validate(trecs + [tcan], d, "c07tree", module="XTreeV", cfg="XTreeV.cfg")
+    if tverd[-1]['v'] != 'bad':
+        raise vlib.MachineryError("canary accepted by XTreeV: binding is not live")
+    tcnt = collections.Counter(v['cls'] for v in tverd[:-1])
+    drift = [{'id': r['id'], 'class': v['cls'], 'why': v['why'], 'src': r['src'][-300:]} for r, v in zip(trecs, tverd[:-1]) if v['v'] != 'ok']
+    chk.set("frontend_trees_judged_by_XFold", len(trecs)); chk.set("frontend_verdicts", dict(tcnt))
+    chk.set("DRIFT_trees_differing_from_XFold", len(drift))
+    if drift:
+        chk.set("frontend_drift_examples", drift[:5])
+
+
 def run(tier, replay=None):
     chk = vlib.Check(PID, tier, "model_checking")
     d = vlib.rundir("c07")
@@ -47,6 +104,8 @@ def run(tier, replay=None):
                 chk.violation("fold:%s" % kind, "placements of one expression disagree: " + desc, files)
             elif any(v['v'] == 'bad' for c, r, v in dom):
                 agree_but_not_spec += 1
+        theorems(chk, tier, d)
+        frontend(chk, tier, d, cases)
         steps = sum(v['n'] for v in verd[:-1])
         chk.add("states", steps); chk.add("transitions", steps)
         chk.set("variants_compiled", len(cases))
